@@ -269,6 +269,24 @@ CHECKS["C05"] = dict(
    note=TB + "Depth-bounded CFGs only; ASCII strings with single spaces.  Rule tables and 'added' are modelled as lists with keys proved distinct.  The number of components a pattern adds is computed from the pattern, not from a final state's tuple length (they agree whenever a final state exists; the base grammar is assumed non-empty).  Constraint order is modelled but not observable.  Nested patterns that repeat the head of an enclosing pattern follow the 'every occurrence' reading (the property leaves them open; test_multi_level_hard fails in the baseline for that reason).  ttcfg_constraints.py is not covered.",
    design="5/C05")
 NOT_YET = {}
+CHECKS["C08"] = dict(
+   technique="Coq proof of the grammar-splitter model (prefix nodes, balance loop, specified fragments) + extracted-model/implementation correspondence against a pinned model of the code as found",
+   text=("PARTIAL.  Theorems (Props/C08.v, 17, closed under the global context) about the model: prefix nodes are a partition of the derivations with "
+         "probabilities summing to 1 at every step of the node-splitting phase (C08_nodes_partition, C08_split_nodes); the REPAIRED balance loop keeps the "
+         "groups a partition with exact masses (C08_groups_partition), returns exactly `splits` non-empty groups (C08_groups_nonempty) and the ratio "
+         "heaviest / lightest (C08_ratio); the specified fragments are pairwise disjoint, cover the language, carry conditional probabilities summing to 1 "
+         "and are non-empty (C08_fragments_*, C08_language, C08_program_*); the node-splitting phase terminates (C08_terminates_partial).  The code as "
+         "found is refuted in the model: C08_ratio_refuted, C08_nonempty_refuted, C08_split_in_group_refuted, C08_groups_partition_refuted.  Why partial: "
+         "the repository's splitter violates the property on most inputs (seven recorded known findings; the repairs in proposed_fixes/C08-* are not "
+         "applied: the only repair of __pcfg_from__ is a rewrite, and the small balance-loop repairs alone make the repository's own splitter tests fail "
+         "because the repaired loop reaches groups the defective reconstruction cannot rebuild).  Each run therefore checks that the implementation's "
+         "balance loop is EXACTLY the faithful pinned model of the code as found (groups in order with their nodes, masses, ratio, exception class, "
+         "non-return matched against the pinned model running out of 1500 iterations) and accepts a failure of the specified observables (partition of "
+         "the language, conditional probabilities, programs(), ratio = heaviest/lightest) only as one of the recorded findings; 25 corpus cases that the "
+         "unchanged tree rebuilds correctly must stay correct.  __pcfg_from__ is not modelled: its classifier is symptom-based, so the check has little "
+         "power against new defects inside it; termination of the repaired balance loop is not proved."),
+   note=TB + "Exact dyadic weights only (uniform()/random() float weights are not exercised: a rounding could change the chosen swap); tolerance 1e-9 on fragment probabilities and on the ratio; split() is given 3 s, pinned-model fuel 1500; groups are observed by wrapping __split_into_nodes__; grammars of at most 160 programs.",
+   design="5/C08")
 def main():
     props = [json.loads(l) for l in open(os.path.join(V, "properties.jsonl"))]
     ids = [p["id"] for p in props]
